@@ -239,7 +239,8 @@ Record fdyn := mkFdyn {
 Record world := mkWorld {
   w_R : nat -> positive -> bool -> Prop;    (* the cells of a user variable: Sylt cell, Lua cell; flag false: the two cells
                                                of a function-valued constant while its value is computed (any content) *)
-  w_F : nat -> positive -> fdyn -> Prop;    (* the cells of a function name or function parameter, and the closure they hold *)
+  w_F : nat -> positive -> kind -> Prop;    (* the cells of a function name, parameter or variable of a function kind: at all
+                                               times they hold the two halves of one closure of that kind *)
   w_D : fdyn -> Prop;                       (* the closures that exist *)
   w_P : positive -> value -> Prop;          (* Lua cells with a fixed content *)
   w_pc : nat                                (* the Sylt cell of the external print *)
@@ -252,7 +253,7 @@ Definition dkind (d : fdyn) : kind := KF (fd_pk d) (fd_rk d).
 
 (* a world that knows at least what another one knows; the fixed cells are the same *)
 Definition wsub (W W' : world) : Prop :=
-  (forall c p b, w_R W c p b -> w_R W' c p b) /\ (forall c p d, w_F W c p d -> w_F W' c p d) /\
+  (forall c p b, w_R W c p b -> w_R W' c p b) /\ (forall c p K, w_F W c p K -> w_F W' c p K) /\
   (forall d, w_D W d -> w_D W' d) /\ (forall p lv, w_P W p lv <-> w_P W' p lv) /\ w_pc W' = w_pc W.
 Lemma wsub_refl W : wsub W W. Proof. repeat split; auto. Qed.
 Lemma wsub_trans W1 W2 W3 : wsub W1 W2 -> wsub W2 W3 -> wsub W1 W3.
@@ -262,6 +263,13 @@ Proof.
   - intros H. apply D, D'. exact H.
   - congruence.
 Qed.
+
+(* the world with one more closure *)
+Definition world_addD (W : world) (d : fdyn) : world :=
+  mkWorld (w_R W) (w_F W) (fun d' => w_D W d' \/ d' = d) (w_P W) (w_pc W).
+
+Lemma wsub_addD W d : wsub W (world_addD W d).
+Proof. unfold wsub, world_addD. cbn. repeat split; auto. Qed.
 
 (* closures are created in step on the two sides: the Lua id of the Sylt closure number ci *)
 Definition fid_of (ci : nat) : positive := Pos.of_nat (Pos.to_nat (s_nclo st_pre) + ci).
@@ -309,7 +317,7 @@ Variable fl : list (N * kind).   (* the functions that can be called by name fro
 Variable W : world.
 
 (* a Lua cell that is neither the cell of a user variable nor of a function name *)
-Definition not_user (p : positive) : Prop := (forall c b, ~ w_R W c p b) /\ (forall c d, ~ w_F W c p d).
+Definition not_user (p : positive) : Prop := (forall c b, ~ w_R W c p b) /\ (forall c K, ~ w_F W c p K).
 
 Record winv (sc : list N) (e : senv) (st : sstate) (E : env) (stL : state) : Prop := mkWinv {
   (* the cells of the user variables hold related values *)
@@ -317,14 +325,14 @@ Record winv (sc : list N) (e : senv) (st : sstate) (E : env) (stL : state) : Pro
          exists x, nth_error (SyltSem.cells st) c = Some x /\ (if b then vrel x (get_cell stL p) else True) /\ (p < s_ncell stL)%positive;
   wi_Rfun : forall c p p' b b', w_R W c p b -> w_R W c p' b' -> p = p' /\ b = b';
   wi_Rinj : forall c c' p b b', w_R W c p b -> w_R W c' p b' -> c = c';
-  wi_RF : forall c p b, w_R W c p b -> (forall p' d, ~ w_F W c p' d) /\ (forall c' d, ~ w_F W c' p d);
+  wi_RF : forall c p b, w_R W c p b -> (forall p' K, ~ w_F W c p' K) /\ (forall c' K, ~ w_F W c' p K);
   wi_RP : forall c p b lv, w_R W c p b -> ~ w_P W p lv;
   (* the cells of the function names hold their closures *)
-  wi_F : forall c p d, w_F W c p d ->
-         nth_error (SyltSem.cells st) c = Some (SyltSem.SClos (fd_ci d)) /\ get_cell stL p = VFun (fd_fid d) /\
-         (p < s_ncell stL)%positive /\ w_D W d;
-  wi_FP : forall c p d lv, w_F W c p d -> ~ w_P W p lv;
-  wi_Ffun : forall c p d p' d', w_F W c p d -> w_F W c p' d' -> p = p' /\ d = d';
+  wi_F : forall c p K, w_F W c p K ->
+         exists d, nth_error (SyltSem.cells st) c = Some (SyltSem.SClos (fd_ci d)) /\ get_cell stL p = VFun (fd_fid d) /\
+                   (p < s_ncell stL)%positive /\ w_D W d /\ dkind d = K;
+  wi_FP : forall c p K lv, w_F W c p K -> ~ w_P W p lv;
+  wi_Ffun : forall c p K p' K', w_F W c p K -> w_F W c p' K' -> p = p' /\ K = K';
   (* the fixed cells *)
   wi_P : forall p lv, w_P W p lv -> get_cell stL p = lv /\ (p < s_ncell stL)%positive;
   wi_pc : nth_error (SyltSem.cells st) (w_pc W) = Some (SyltSem.SExt "print");
@@ -339,15 +347,15 @@ Record winv (sc : list N) (e : senv) (st : sstate) (E : env) (stL : state) : Pro
          (forall g, In g (fd_sc d) ->
             exists c p, SyltSem.lookup (fd_ef d) g = Some c /\ sget (fmt_var g) (fd_Ef d) = Some p /\ w_R W c p true) /\
          (forall f K, In (f, K) (fd_fl d) -> K <> KP ->
-            exists c p d', SyltSem.lookup (fd_ef d) f = Some c /\ sget (fmt_var f) (fd_Ef d) = Some p /\ w_F W c p d' /\
-                           dkind d' = K) /\
+            exists c p, SyltSem.lookup (fd_ef d) f = Some c /\ sget (fmt_var f) (fd_Ef d) = Some p /\ w_F W c p K) /\
          (forall t p, bound <= t -> sget (fmt_var t) (fd_Ef d) = Some p -> not_user p);
   wi_Dall : forall ci, (ci < length (SyltSem.clos st))%nat -> exists d, w_D W d /\ fd_ci d = ci;
   wi_lock : s_nclo stL = fid_of (length (SyltSem.clos st));
   (* the current scope *)
   wi_sc : forall v, In v sc -> exists c p, SyltSem.lookup e v = Some c /\ sget (fmt_var v) E = Some p /\ w_R W c p true;
   wi_scfl : forall v, In v sc -> ~ In v (fnames fl);
-  wi_temps : forall t p, bound <= t -> sget (fmt_var t) E = Some p -> not_user p
+  wi_temps : forall t p, bound <= t -> sget (fmt_var t) E = Some p -> not_user p;
+  wi_Finj : forall c c' p K K', w_F W c p K -> w_F W c' p K' -> c = c'
 }.
 End World.
 
@@ -370,7 +378,7 @@ Record rel0 (fl : list (N * kind)) (W : world) (sc : list N) (e : senv) (st : ss
    along a run: every definition of a user variable adds its two cells, every function definition its closure) *)
 Definition fscope (fl : list (N * kind)) (W : world) (e : senv) (E : env) : Prop :=
   forall f K, In (f, K) fl -> K <> KP ->
-    exists c p d, SyltSem.lookup e f = Some c /\ sget (fmt_var f) E = Some p /\ w_F W c p d /\ dkind d = K /\ w_D W d.
+    exists c p, SyltSem.lookup e f = Some c /\ sget (fmt_var f) E = Some p /\ w_F W c p K.
 
 Definition rel (fl : list (N * kind)) (W : world) (sc : list N) (e : senv) (st : sstate) (E : env) (stL : state) : Prop :=
   fscope fl W e E /\ exists W', wsub W W' /\ rel0 fl W' sc e st E stL.
@@ -409,24 +417,18 @@ Lemma r_linv fl W sc e st E stL : rel fl W sc e st E stL -> linv stL.
 Proof. intros (_ & W' & _ & H). apply (r0_linv _ _ _ _ _ _ _ H). Qed.
 Lemma r_scfl fl W sc e st E stL : rel fl W sc e st E stL -> forall v, In v sc -> ~ In v (fnames fl).
 Proof. intros (_ & W' & _ & H). apply (wi_scfl _ _ _ _ _ _ _ (r0_world _ _ _ _ _ _ _ H)). Qed.
-Lemma r_fun fl W sc e st E stL f ar : rel fl W sc e st E stL -> In (f, ar) fl -> ar <> KP ->
-  exists c ci p fid, SyltSem.lookup e f = Some c /\ nth_error (SyltSem.cells st) c = Some (SyltSem.SClos ci) /\
-                     sget (fmt_var f) E = Some p /\ get_cell stL p = VFun fid /\ fid = fid_of ci.
-Proof.
-  intros (Hfs & W' & (_ & HsF & _) & H) Hin HK. destruct (Hfs f ar Hin HK) as (c & p & d & H1 & H2 & H3 & _).
-  apply HsF in H3.
-  destruct (wi_F _ _ _ _ _ _ _ (r0_world _ _ _ _ _ _ _ H) c p d H3) as (H4 & H5 & _ & H6).
-  destruct (wi_D _ _ _ _ _ _ _ (r0_world _ _ _ _ _ _ _ H) d H6) as (_ & _ & _ & _ & H7 & _).
-  exists c, (fd_ci d), p, (fd_fid d). auto 10.
-Qed.
+(* the closure a function name holds; the relation also holds in the world that knows this closure *)
 Lemma r_fund fl W sc e st E stL f K : rel fl W sc e st E stL -> In (f, K) fl -> K <> KP ->
   exists c p d, SyltSem.lookup e f = Some c /\ nth_error (SyltSem.cells st) c = Some (SyltSem.SClos (fd_ci d)) /\
-                sget (fmt_var f) E = Some p /\ get_cell stL p = VFun (fd_fid d) /\ w_D W d /\ dkind d = K.
+                sget (fmt_var f) E = Some p /\ get_cell stL p = VFun (fd_fid d) /\ dkind d = K /\
+                rel fl (world_addD W d) sc e st E stL.
 Proof.
-  intros (Hfs & W' & (_ & HsF & _) & H) Hin HK. destruct (Hfs f K Hin HK) as (c & p & d & H1 & H2 & H3 & H4 & H5).
-  apply HsF in H3.
-  destruct (wi_F _ _ _ _ _ _ _ (r0_world _ _ _ _ _ _ _ H) c p d H3) as (H6 & H7 & _).
-  exists c, p, d. auto 10.
+  intros (Hfs & W' & Hs & H) Hin HK. destruct (Hfs f K Hin HK) as (c & p & H1 & H2 & H3).
+  pose proof Hs as (A & HsF & C & D & F). apply HsF in H3.
+  destruct (wi_F _ _ _ _ _ _ _ (r0_world _ _ _ _ _ _ _ H) c p K H3) as (d & H6 & H7 & _ & H8 & H9).
+  exists c, p, d. split; [exact H1|]. split; [exact H6|]. split; [exact H2|]. split; [exact H7|]. split; [exact H9|].
+  split; [exact Hfs|]. exists W'. split; [|exact H].
+  unfold wsub, world_addD. cbn. split; [exact A|]. split; [exact HsF|]. split; [intros d0 [Hd0| ->]; [apply C; exact Hd0 | exact H8]|]. split; assumption.
 Qed.
 (* a fixed cell keeps its content and is not the cell of a variable *)
 Lemma r_fixed fl W sc e st E stL p lv : rel fl W sc e st E stL -> w_P W p lv -> get_cell stL p = lv /\ (p < s_ncell stL)%positive.
@@ -452,14 +454,14 @@ Lemma winv_states fl W sc e st E stL st' stL' :
              nth_error (SyltSem.cells st') c = nth_error (SyltSem.cells st) c) ->
   (forall c p, w_R W c p true -> exists x, nth_error (SyltSem.cells st') c = Some x /\ vrel x (get_cell stL' p)) ->
   SyltSem.clos st' = SyltSem.clos st ->
-  (forall c p d, w_F W c p d -> get_cell stL' p = get_cell stL p) ->
+  (forall c p K, w_F W c p K -> get_cell stL' p = get_cell stL p) ->
   (forall p lv, w_P W p lv -> get_cell stL' p = get_cell stL p) ->
   (s_ncell stL <= s_ncell stL')%positive ->
   s_clos stL' = s_clos stL -> s_nclo stL' = s_nclo stL ->
   winv fl W sc e st' E stL'.
 Proof.
   intros Hw HS HR Hc HF HP Hn Hlc Hnc.
-  pose proof Hw as [H1 H2 H3 H4 H5 H6 H7 Hff H8 H9 H10 Hall Hlock H11 H13 H14].
+  pose proof Hw as [H1 H2 H3 H4 H5 H6 H7 Hff H8 H9 H10 Hall Hlock H11 H13 H14 Hfi].
   assert (Hlen : forall c x, nth_error (SyltSem.cells st) c = Some x -> (c < length (SyltSem.cells st))%nat)
     by (intros c x H; apply nth_error_Some; congruence).
   constructor; auto.
@@ -467,8 +469,9 @@ Proof.
     + destruct (HR c p Hr) as (x & Hx & Hv). destruct (H1 c p true Hr) as (_ & _ & _ & Hlt). exists x. split; [exact Hx | split; [exact Hv | lia]].
     + destruct (H1 c p false Hr) as (x & A & _ & Hlt). exists x. split; [|split; [exact I | lia]].
       rewrite HS; [exact A | | eapply Hlen; exact A]. intros p' Hr'. destruct (H2 c p p' false true Hr Hr') as [_ Hb]. discriminate Hb.
-  - intros c p d Hf. destruct (H6 c p d Hf) as (A & B & C & D). split; [|split; [rewrite (HF c p d Hf); exact B | split; [lia | exact D]]].
-    rewrite HS; [exact A | | eapply Hlen; exact A]. intros p' Hr. destruct (H4 c p' true Hr) as [Hn1 _]. exact (Hn1 p d Hf).
+  - intros c p K Hf. destruct (H6 c p K Hf) as (d & A & B & C & D & Dk). exists d.
+    split; [|split; [rewrite (HF c p K Hf); exact B | split; [lia | split; [exact D | exact Dk]]]].
+    rewrite HS; [exact A | | eapply Hlen; exact A]. intros p' Hr. destruct (H4 c p' true Hr) as [Hn1 _]. exact (Hn1 p K Hf).
   - intros p lv Hp. destruct (H8 p lv Hp) as [A B]. split; [rewrite (HP p lv Hp); exact A | lia].
   - rewrite HS; [exact H9 | intros p'; apply (winv_pc_notR _ _ _ _ _ _ _ p' Hw) | eapply Hlen; exact H9].
   - intros d Hd. destruct (H10 d Hd) as (A & B & C & D & F & G & G').
@@ -486,7 +489,7 @@ Lemma winv_env fl W sc e st E stL fl' sc' e' E' :
   (forall v, In v sc' -> ~ In v (fnames fl')) ->
   (forall t p, bound <= t -> sget (fmt_var t) E' = Some p -> not_user W p) ->
   winv fl' W sc' e' st E' stL.
-Proof. intros [H1 H2 H3 H4 H5 H6 H7 Hff H8 H9 H10 Hall Hlock H11 H13 H14] A C D. constructor; auto. Qed.
+Proof. intros [H1 H2 H3 H4 H5 H6 H7 Hff H8 H9 H10 Hall Hlock H11 H13 H14 Hfi] A C D. constructor; auto. Qed.
 
 (* a world that knows more: what the invariant of the larger world says about the smaller one's scope *)
 
@@ -508,7 +511,7 @@ Proof.
     + intros; reflexivity.
     + intros c p Hr. destruct (wi_R _ _ _ _ _ _ _ HW c p true Hr) as (x & A & B & C). exists x. split; [exact A | rewrite Hg; assumption].
     + intros; reflexivity.
-    + intros c p d Hf. apply Hg. apply (wi_F _ _ _ _ _ _ _ HW c p d Hf).
+    + intros c p K Hf. apply Hg. destruct (wi_F _ _ _ _ _ _ _ HW c p K Hf) as (d & _ & _ & Hlt & _). exact Hlt.
     + intros p lv Hp'. apply Hg. apply (wi_P _ _ _ _ _ _ _ HW p lv Hp').
     + exact Hn.
     + exact Hc.
@@ -524,7 +527,7 @@ Proof.
   assert (Hfl : forall f ar, In (f, ar) fl -> f < bound).
   { intros f ar Hin. destruct (Hfb f); [|assumption]. unfold fnames. change f with (fst (f, ar)). apply in_map. exact Hin. }
   split.
-  { intros f ar Hin HK. destruct (Hfs f ar Hin HK) as (c & p & d & A & B & C). exists c, p, d. split; [exact A | split; [|exact C]].
+  { intros f ar Hin HK. destruct (Hfs f ar Hin HK) as (c & p & A & B & C). exists c, p. split; [exact A | split; [|exact C]].
     rewrite sget_sset_var; [exact B | pose proof (Hfl f ar Hin); lia]. }
   exists W'. split; [exact Hs|]. constructor.
   - exact Hb.
@@ -541,7 +544,7 @@ Proof.
       - intros; reflexivity.
       - intros c p Hr. destruct (wi_R _ _ _ _ _ _ _ HW c p true Hr) as (x & A & B & C). exists x. split; [exact A | rewrite get_cell_alloc_old; assumption].
       - intros; reflexivity.
-      - intros c p d Hf. apply get_cell_alloc_old. apply (wi_F _ _ _ _ _ _ _ HW c p d Hf).
+      - intros c p K Hf. apply get_cell_alloc_old. destruct (wi_F _ _ _ _ _ _ _ HW c p K Hf) as (d & _ & _ & Hlt & _). exact Hlt.
       - intros p lv Hp'. apply get_cell_alloc_old. apply (wi_P _ _ _ _ _ _ _ HW p lv Hp').
       - cbn; lia.
       - reflexivity.
@@ -553,7 +556,7 @@ Proof.
     + intros t' p Hbt' Hq. destruct (N.eq_dec t' t) as [->|Hne].
       * rewrite sget_sset_same in Hq. inversion Hq; subst p. split.
         -- intros c b Hr. destruct (wi_R _ _ _ _ _ _ _ HW c _ b Hr) as (_ & _ & _ & Hlt). lia.
-        -- intros c d Hf. destruct (wi_F _ _ _ _ _ _ _ HW c _ d Hf) as (_ & _ & Hlt & _). lia.
+        -- intros c K Hf. destruct (wi_F _ _ _ _ _ _ _ HW c _ K Hf) as (d & _ & _ & Hlt & _). lia.
       * rewrite sget_sset_var in Hq by exact Hne. apply (wi_temps _ _ _ _ _ _ _ HW t' p Hbt' Hq).
 Qed.
 
